@@ -649,6 +649,14 @@ def c11(run):
     for cc in S.countries:
         for j in range(run.scale(4, 150)):
             ibans.append(S.iban(cc, with_bank=bool(j % 2)).upper())
+    # BBANs that begin with their own country code followed by two digits (they look like the head of an IBAN):
+    # every country whose structure admits that, several digit pairs each - swept completely
+    for cc in S.countries:
+        cl = S.classes(cc)
+        if len(cl) >= 4 and all(k in "ac" for k in cl[:2]) and all(k in "nc" for k in cl[2:4]):
+            for dd in ("00", "02", "32", "97", "99"):
+                b = cc + dd + S.bban(cc).upper()[4:]
+                ibans.append(cc + iban_check_digits(cc, b) + b)
     for i in ibans:
         ops.append(["iban.parts", hx(i)])
         ops.append(["iban.from_bban", hx(i[:2]), hx(i[4:])])
@@ -1242,6 +1250,15 @@ def c12(run):
             run.exhaustive = True
         # entries that lack an expected key are always looked up
         codes += sorted({e.get("bank_code", "") for e, _ in S.malformed_entries if e.get("country_code") == cc} - set(codes))
+        # … and so are entries with an unusual value: a BIC or bank code that is not already in compact
+        # upper-case alphanumeric form, a BIC of another country, a BIC that is not 8 or 11 characters long
+        def odd(e):
+            b, c = e["bic"], e["bank_code"]
+            return (isinstance(b, str) and b != "" and (common.clean(b) != b or not b.isalnum() or not b.isascii()
+                                                        or len(b) not in (8, 11))) or \
+                (isinstance(c, str) and (common.clean(c) != c or (c != "" and (not c.isalnum() or not c.isascii())))) or \
+                not isinstance(c, str) or not (b is None or isinstance(b, str))
+        codes += sorted({str(e["bank_code"]) for e in es if odd(e)} - set(codes))
         for code in codes + ["", "99999999", codes[0] + "0" if codes else "1"]:
             for op in ("bic.candidates", "bic.from_bank_code"):
                 ops.append([op, hx(cc), hx(code)])
@@ -1847,6 +1864,18 @@ def c08(run):
                 vals[k] = r.choice(["0" * w[k], "0", "", "0" * (w[k] + 1), " "])
             ops.append(["iban.generate", hx(cc), hx(vals["bank_code"]), hx(vals["account_code"]), hx(vals["branch_code"])])
             meta.append((cc, vals))
+    # a component that is valid but for ONE character whose Unicode normal forms differ from it (full-width
+    # and superscript digits, ligatures, signs that decompose into letters or blanks): all of them
+    from streams import normalisation_sensitive
+    for ch in normalisation_sensitive():
+        for cc, bank, acct in (("DE", "37040044", "532013000"), ("GB", "NWBK601613", "31926819")):
+            p_ = r.randrange(len(acct))
+            vals = {"bank_code": bank, "account_code": acct[:p_] + ch + acct[p_ + 1:], "branch_code": ""}
+            ops.append(["iban.generate", hx(cc), hx(vals["bank_code"]), hx(vals["account_code"]), hx("")])
+            meta.append((cc, vals))
+            vals = {"bank_code": bank[:2] + ch + bank[3:], "account_code": acct, "branch_code": ""}
+            ops.append(["iban.generate", hx(cc), hx(vals["bank_code"]), hx(vals["account_code"]), hx("")])
+            meta.append((cc, vals))
     reals, _ = run.correspond("generate", ops)
     for f, (cc, vals), a in zip(ops, meta, reals):
         args = [cc, vals["bank_code"], vals["account_code"], vals["branch_code"]]
@@ -1927,6 +1956,20 @@ def c09(run):
                         hx(comps.get("branch_code", ""))])
     for cc in computing + computing[::-1]:
         ops.append(["iban.generate", hx(cc), "-", "-", "-"])
+    # components with runs of leading zeros, all zeros, all nines, a single trailing one (account-type groups
+    # such as "00", short numbers): every computing country x every field, deterministically
+    for cc in computing:
+        base = r.choice(digit_pool[S.table[cc]["bban_length"]])
+        for k, w in widths[cc]:
+            if w < 2 or not all(ch in "nc" for ch in S.classes(cc)[S.table[cc]["positions"][k][0]:S.table[cc]["positions"][k][1]]):
+                continue
+            tail = "".join(r.choice("123456789") for _ in range(w))
+            for v in ["0" * z + tail[: w - z] for z in range(1, min(w, 6))] + ["0" * w, "9" * w, "0" * (w - 1) + "1",
+                                                                              "00" + tail[: w - 2]]:
+                comps = dict(base)
+                comps[k] = v
+                ops.append(["iban.generate", hx(cc), hx(comps.get("bank_code", "")), hx(comps.get("account_code", "")),
+                            hx(comps.get("branch_code", ""))])
     # other spellings of the country code: whatever the library builds for them must validate as well
     for cc in computing:
         comps = r.choice(digit_pool[S.table[cc]["bban_length"]])
@@ -2096,6 +2139,13 @@ def c16(run):
                     ops.append(["obj.cmp", k1, hx(x), k2, hx(y)])
     hows = ["copy", "deepcopy"] + ["pickle%d" % p for p in range(6)]
     objs = r.sample(texts, min(len(texts), run.scale(120, 2000)))
+    # objects (never validated) whose text holds a character whose Unicode normal forms differ from it: all
+    from streams import normalisation_sensitive
+    for ch in normalisation_sensitive():
+        for k, t in (("iban", "DE89" + ch + "370400440532013000"), ("bban:" + hx("DE"), "3704" + ch + "0440532013000"),
+                     ("bic", "GENO" + ch + "DEM1GLS")):
+            for how in ("copy", "deepcopy", "pickle2"):
+                ops.append(["obj.copy", k, hx(t), how])
     for k, t in objs:
         if k == "str":
             continue
